@@ -104,11 +104,11 @@ NOTES['C02'] = {'technique': 'Lean 4 proof (per-key atomic-step semantics, commu
     'text': 'Theorems: a write step changes no other key; writes to different keys commute on the abstraction; the compute step acts on exactly the state at its point. Structural obligations: skeletons of hashmap Get/Compute/resize/copyBucket* (Props.C15). '
             'Tie: CONC-lin on the real cache (all key-value operations incl. Compute*/SetIfAbsent, evicting and unbounded, table growing and shrinking): per-key linearizability decided exactly from in-critical-section stamps; callback ran once.',
     'note': _CONC_NOTE + 'PARTIAL: linearizability over all schedules is not a theorem about the code; it is decided for every recorded history. The parallel bucket copy of resize and sync.Cond waiting are exercised, not modelled.'}
-NOTES['C15'] = {'technique': 'Lean 4 proof (finite-map laws of the specification, SWAR meta-byte facts over regenerated code) + skeleton equality of the table functions + exact linearizability judgement + sequential correspondence through the cache',
-    'engine': 'proof+gen-skeleton+conc-lin+seq',
-    'text': 'Theorems: read-your-write/frame/delete/distinct-keys laws; the stored 7-bit hash fragment is always below the empty marker 0x80; empty meta = broadcast(0x80). Skeletons of Get/Compute/resize/copyBucket/copyBucketWithDestLock/Range/waitForResize equal the snapshot. '
+NOTES['C15'] = {'technique': 'Lean 4 proof (interleaving model Conc.Resize of the writer/resizer handshake: no completed write lost across any number of resizes under every schedule, copy excludes writers, one writer per bucket; finite-map laws; SWAR meta-byte facts over regenerated code) + skeleton equality of the table functions + exact linearizability judgement + sequential correspondence through the cache',
+    'engine': 'proof+gen-skeleton+conc-lin+conc-resize+seq',
+    'text': 'Conc.Resize (one key, unboundedly many writers, successive resizes; steps wLock/wCheck1/wCheck2/wApply/retreats and rStart/rCopy/rPublish/rDone/rGiveUp): in every reachable state the current table holds the value of the last completed write, a bucket is copied only while no writer is inside it and none enters until the flag is cleared, a storing writer works on the current table, at most one writer is inside a bucket. Also: read-your-write/frame/delete/distinct-keys laws; the stored 7-bit hash fragment is always below the empty marker 0x80; empty meta = broadcast(0x80). Skeletons of Get/Compute/resize/copyBucket/copyBucketWithDestLock/Range/waitForResize equal the snapshot. '
             'Tie: CONC-lin on the table alone with growth and shrink forced by side keys: per-key linearizability, callbacks once, Size = keys = Range at quiescence; SEQ: iteration yields exactly the live entries once.',
-    'note': _CONC_NOTE + 'PARTIAL: no mechanised model of bucket chains, SWAR search and cooperative resize; heavy in-bucket collisions are produced only by chance (maphash is seeded per table).'}
+    'note': _CONC_NOTE + 'PARTIAL: bucket chains and the SWAR search are not modelled; the handshake model is per key and tied to map.go by the skeletons and CONC-resize (Computes blocked inside the critical section during growth/shrink, GOMAXPROCS varied); heavy in-bucket collisions are produced only by chance (maphash is seeded per table).'}
 NOTES['C08'] = {'technique': 'Lean 4 proof (interleaving model Conc.Flight: all schedules of join/create/unregister/cancel/kill/resume for unboundedly many callers, writers and call objects; plus registration/completion rules of the specification) + skeleton equality + concurrent single-flight judge + sequential correspondence with hang watchdog',
     'engine': 'proof+gen-skeleton+conc-flight+seq',
     'text': 'Theorems for every state and outcome (value, error, not-found, panic): a second registration is refused; completion unregisters the call; a later Get registers afresh. Conc.Flight (every reachable state): two loads of one key are in progress at once only if a write/invalidation/eviction removed the registered call in between; once no load runs no record is registered; a waiter always has an enabled step of its leader or itself (leader unregisters BEFORE releasing the waiters). Skeletons of startCall/deleteCall/delete/doCall/doBulkCall/afterDeleteCall and of the callers Get/BulkGet/refreshKey/bulkRefreshKeys/wrapLoad/wait/cancel equal the snapshot (no return between registration and doCall/doBulkCall; cancel after the table critical section). '
